@@ -126,6 +126,12 @@ class ClassInfo:
         return f"{self.module.relpath}:{n.lineno}"
 
 
+def _register(fi):
+    from .decision import FUNC_INDEX
+
+    FUNC_INDEX[id(fi.node)] = fi
+
+
 class Module:
     def __init__(self, repo, name, path, relpath):
         self.repo = repo
@@ -182,6 +188,7 @@ class Module:
                 q = prefix + st.name
                 fi = FuncInfo(self, q, st, cls=cls, parent=parent)
                 self.functions[q] = fi
+                _register(fi)
                 if cls is not None and parent is None:
                     cls.methods[st.name] = fi
                 self._index_nested(st, q + ".", cls, fi)
@@ -213,6 +220,7 @@ class Module:
                 q = prefix + n.name
                 fi = FuncInfo(self, q, n, cls=cls, parent=parent)
                 self.functions[q] = fi
+                _register(fi)
                 self._index_nested(n, q + ".", cls, fi)
                 continue
             if isinstance(n, ast.ClassDef):
